@@ -962,7 +962,7 @@ func (r *envelopingReader) prepareNext() error {
 			r.rw.reportError(err)
 			return err
 		}
-		r.current = io.LimitReader(r.r, int64(env.length))
+		r.current = &messageReader{r: r.r, remaining: int64(env.length)}
 	}
 
 	if r.rw.op.serverEnveloper == nil {
@@ -972,6 +972,31 @@ func (r *envelopingReader) prepareNext() error {
 		r.env = r.rw.op.serverEnveloper.encodeEnvelope(env)
 	}
 	return nil
+}
+
+// messageReader reads the payload of one enveloped message: exactly as many
+// bytes as the envelope announced. Unlike io.LimitReader it does not take
+// the end of the source for the end of the message: a source that ends
+// early is an error (a server protocol without envelopes could not tell
+// the difference).
+type messageReader struct {
+	r         io.Reader
+	remaining int64
+}
+
+func (m *messageReader) Read(data []byte) (int, error) {
+	if m.remaining <= 0 {
+		return 0, io.EOF
+	}
+	if int64(len(data)) > m.remaining {
+		data = data[:m.remaining]
+	}
+	n, err := m.r.Read(data)
+	m.remaining -= int64(n)
+	if errors.Is(err, io.EOF) && m.remaining > 0 {
+		err = io.ErrUnexpectedEOF
+	}
+	return n, err
 }
 
 // transformingReader transforms the data from the original request
